@@ -93,6 +93,15 @@ func Start(prop string) *Run {
 	return r
 }
 
+// OutRoot is where evidence/ and replays/ are written (VERIF_OUT, default Root()); detection
+// runs point it at a scratch directory so that they never overwrite real evidence.
+func OutRoot() string {
+	if r := os.Getenv("VERIF_OUT"); r != "" {
+		return r
+	}
+	return Root()
+}
+
 // Thorough reports whether the thorough tier was requested.
 func (r *Run) Thorough() bool { return r.Tier == "thorough" }
 
@@ -174,7 +183,7 @@ func (r *Run) Violation(key, what string, replay any) {
 	body := map[string]any{"property": r.Prop, "key": key, "what": what, "replay": replay}
 	data, _ := json.MarshalIndent(body, "", " ")
 	h := sha256.Sum256([]byte(key))
-	dir := filepath.Join(Root(), "replays")
+	dir := filepath.Join(OutRoot(), "replays")
 	_ = os.MkdirAll(dir, 0o755)
 	path := filepath.Join(dir, fmt.Sprintf("%s-%s.json", r.Prop, hex.EncodeToString(h[:6])))
 	_ = os.WriteFile(path, data, 0o644)
@@ -242,7 +251,7 @@ func (r *Run) Finish() {
 		fmt.Fprintln(os.Stderr, "evidence marshal:", err)
 		os.Exit(2)
 	}
-	dir := filepath.Join(Root(), "evidence")
+	dir := filepath.Join(OutRoot(), "evidence")
 	_ = os.MkdirAll(dir, 0o755)
 	tmp := filepath.Join(dir, fmt.Sprintf(".%s.%d.tmp", r.Prop, os.Getpid()))
 	if err := os.WriteFile(tmp, data, 0o644); err != nil {
